@@ -22,4 +22,15 @@ theorem memo_keyed_by_default_conversion :
     Generated.rec_checkerInitParams = ["self", "default_conversion"] := by
   refine ⟨?_, ?_, ?_, ?_⟩ <;> decide +kernel
 
+/-- The body of `RecursiveChecker.visit` as `Api.Rec.enter` / `exitFix` read it: a memo hit passes; a key of the guard records the guard from that
+key on (`_recursive`, `_all_recursive`); otherwise the key is pushed, its children visited, and on return (row 96) a head hands its keys to an outer
+key of the guard that has recorded it — or writes them `True` when there is none — and a key outside every recorded cycle is written `False`. -/
+theorem visit_pinned :
+    Generated.rec_visitChain = [
+      ("first", "rec_key = (tp, self._conversion)"),
+      ("rec_key in self._cache", "pass"),
+      ("rec_key in self._guard_indices", "recursive = self._guard[self._guard_indices[rec_key]:]\nself._recursive.setdefault(rec_key, set()).update(recursive)\nself._all_recursive.update(recursive)"),
+      ("else", "self._guard_indices[rec_key] = len(self._guard)\nself._guard.append(rec_key)\ntry:\n    super().visit(tp)\nfinally:\n    self._guard.pop()\n    self._guard_indices.pop(rec_key)\nif rec_key in self._recursive:\n    outer = next((k for k in self._guard if rec_key in self._recursive.get(k, ())), None)\n    if outer is not None:\n        self._recursive[outer].update(self._recursive.pop(rec_key))\n    else:\n        for key in self._recursive[rec_key]:\n            self._cache[key] = True\n        assert self._cache[rec_key]\nelif rec_key not in self._all_recursive:\n    self._cache[rec_key] = False")] := by
+  rfl
+
 end Api.Rec
